@@ -35,6 +35,64 @@ def new_report(tier):
        "provided body of each single-character predicate; constant/ASCII checks of the character predicates; panic-site discharge per override.")
 
 
+def skip_ws_to_eol_agreement(rep, F, tier, rule="override-agreement"):
+    """StrInput::skip_ws_to_eol against the provided body, both folded on every short text over {SP, TAB, #, a, LF, CR, e-acute}"""
+    STR = "<%s as %s>::" % (STRINPUT, INPUT)
+    # (iii+) skip_ws_to_eol: both bodies folded on every text of up to 3 (quick) / 5 (thorough) characters over {SP, TAB, #, a, LF, CR, e-acute}
+    # for both tab modes: same count, same result (tabs seen / whitespace seen / the error), same remaining input
+    SK = "saphyr_parser::input::SkipTabs"
+    ovw, dfw = F.fns.get(STR + "skip_ws_to_eol"), F.fns.get(INPUT + "::skip_ws_to_eol")
+    if ovw is not None and dfw is not None:
+        def _eqh(a):
+            return int(a[0][3] == a[1][3] and a[0][4] == a[1][4])
+
+        def _sfc(a):
+            sx = a[0][1]
+            return ("some", ("tuple", ord(sx[0]), ("str", sx[1:]))) if sx else ("none",)
+        def _res(r):
+            try:
+                res = r[2]
+                if res[2] == "Ok":
+                    return "(%d, tabs=%s ws=%s)" % (r[1], res[4][0][4][0], res[4][0][4][1])
+                return "(%d, error)" % r[1]
+            except Exception:
+                return str(r)[:80]
+        EQ = {"<%s as std::cmp::PartialEq<input::SkipTabs>>::eq" % SK: _eqh, "std::cmp::PartialEq::eq": _eqh, "std::cmp::PartialEq::ne": lambda a: 1 - _eqh(a)}
+        mism, ncase = [], 0
+        maxlen = 3 if tier == "quick" else 5
+        try:
+            for n_ in range(0, maxlen + 1):
+                for tt_ in itertools.product(" \t#a\n\r\u00e9", repeat=n_):
+                    text = "".join(tt_)
+                    for vi, vn in ((0, "Yes"), (1, "No")):
+                        ncase += 1
+                        model = ("struct", {"buffer": ("str", text)})
+                        h1 = dict(EQ)
+                        h1["saphyr_parser::input::str::split_first_char"] = _sfc
+                        r1 = fold.Folder(F, h1).call(ovw.key, [("ref", model), ("adt", SK, vn, vi, ())])
+                        rest1 = model[1]["buffer"]
+                        while isinstance(rest1, tuple) and rest1[0] == "ref":
+                            rest1 = rest1[1]
+                        rest1 = rest1[1]
+                        pos = {"i": 0}
+                        at = lambda k_, text=text, pos=pos: ord(text[pos["i"] + k_]) if pos["i"] + k_ < len(text) else 0
+
+                        def _skip(a, pos=pos):
+                            pos["i"] += 1
+                            return ("zst",)
+                        h2 = dict(EQ)
+                        h2.update({INPUT + "::look_ch": lambda a, at=at: at(0), INPUT + "::peek": lambda a, at=at: at(0), INPUT + "::skip": _skip})
+                        r2 = fold.Folder(F, h2).call(dfw.key, [("ref", ("struct", {})), ("adt", SK, vn, vi, ())])
+                        rest2 = text[pos["i"]:]
+                        if r1 != r2 or rest1 != rest2:
+                            mism.append("%r (tabs: %s): override %s / %r, provided body %s / %r" % (text, vn, _res(r1), rest1, _res(r2), rest2))
+            rep.check(not mism, rule, "skip_ws_to_eol", "StrInput::skip_ws_to_eol disagrees with the provided body (count, result or remaining input) for: %s"
+                      % ", ".join(mism[:5]), site=ovw.span, detail={"cases": ncase, "disagreements": len(mism)})
+            rep.extra.setdefault("multi_char_agreement", {})["skip_ws_to_eol"] = ncase
+        except (fold.Unsupported, fold.Diverged) as ex:
+            rep.incomplete("cannot fold skip_ws_to_eol: %s" % ex, ovw.span)
+
+
 def run(tier):
     rep = new_report(tier)
     F = facts.load()
@@ -135,59 +193,7 @@ def run(tier):
         rep.check(not mism, "override-agreement", nm, "StrInput::%s disagrees with the provided body for: %s" % (nm, ", ".join(mism[:6])), site=ov.span,
                   detail={"cases": 257, "disagreements": len(mism)})
     rep.floor("character predicates used by the single-character tests", len(preds_used), 5)
-    # (iii+) skip_ws_to_eol: both bodies folded on every text of up to 3 (quick) / 5 (thorough) characters over {SP, TAB, #, a, LF, CR, e-acute}
-    # for both tab modes: same count, same result (tabs seen / whitespace seen / the error), same remaining input
-    SK = "saphyr_parser::input::SkipTabs"
-    ovw, dfw = F.fns.get(STR + "skip_ws_to_eol"), F.fns.get(INPUT + "::skip_ws_to_eol")
-    if ovw is not None and dfw is not None:
-        def _eqh(a):
-            return int(a[0][3] == a[1][3] and a[0][4] == a[1][4])
-
-        def _sfc(a):
-            sx = a[0][1]
-            return ("some", ("tuple", ord(sx[0]), ("str", sx[1:]))) if sx else ("none",)
-        def _res(r):
-            try:
-                res = r[2]
-                if res[2] == "Ok":
-                    return "(%d, tabs=%s ws=%s)" % (r[1], res[4][0][4][0], res[4][0][4][1])
-                return "(%d, error)" % r[1]
-            except Exception:
-                return str(r)[:80]
-        EQ = {"<%s as std::cmp::PartialEq<input::SkipTabs>>::eq" % SK: _eqh, "std::cmp::PartialEq::eq": _eqh, "std::cmp::PartialEq::ne": lambda a: 1 - _eqh(a)}
-        mism, ncase = [], 0
-        maxlen = 3 if tier == "quick" else 5
-        try:
-            for n_ in range(0, maxlen + 1):
-                for tt_ in itertools.product(" \t#a\n\r\u00e9", repeat=n_):
-                    text = "".join(tt_)
-                    for vi, vn in ((0, "Yes"), (1, "No")):
-                        ncase += 1
-                        model = ("struct", {"buffer": ("str", text)})
-                        h1 = dict(EQ)
-                        h1["saphyr_parser::input::str::split_first_char"] = _sfc
-                        r1 = fold.Folder(F, h1).call(ovw.key, [("ref", model), ("adt", SK, vn, vi, ())])
-                        rest1 = model[1]["buffer"]
-                        while isinstance(rest1, tuple) and rest1[0] == "ref":
-                            rest1 = rest1[1]
-                        rest1 = rest1[1]
-                        pos = {"i": 0}
-                        at = lambda k_, text=text, pos=pos: ord(text[pos["i"] + k_]) if pos["i"] + k_ < len(text) else 0
-
-                        def _skip(a, pos=pos):
-                            pos["i"] += 1
-                            return ("zst",)
-                        h2 = dict(EQ)
-                        h2.update({INPUT + "::look_ch": lambda a, at=at: at(0), INPUT + "::peek": lambda a, at=at: at(0), INPUT + "::skip": _skip})
-                        r2 = fold.Folder(F, h2).call(dfw.key, [("ref", ("struct", {})), ("adt", SK, vn, vi, ())])
-                        rest2 = text[pos["i"]:]
-                        if r1 != r2 or rest1 != rest2:
-                            mism.append("%r (tabs: %s): override %s / %r, provided body %s / %r" % (text, vn, _res(r1), rest1, _res(r2), rest2))
-            rep.check(not mism, "override-agreement", "skip_ws_to_eol", "StrInput::skip_ws_to_eol disagrees with the provided body (count, result or remaining input) for: %s"
-                      % ", ".join(mism[:5]), site=ovw.span, detail={"cases": ncase, "disagreements": len(mism)})
-            rep.extra.setdefault("multi_char_agreement", {})["skip_ws_to_eol"] = ncase
-        except (fold.Unsupported, fold.Diverged) as ex:
-            rep.incomplete("cannot fold skip_ws_to_eol: %s" % ex, ovw.span)
+    skip_ws_to_eol_agreement(rep, F, tier)
     # (iii-arm) the two arms of the block-scalar content reader (how much is buffered differs between back-ends): same stop class, same text
     from . import armconfluence
     rep.floor("implementations of raw_read_non_breakz_ch", armconfluence.raw_read_contract(rep, F), 2)
